@@ -2166,9 +2166,9 @@ fn random_call(rng: &mut StdRng, cfg: &FontCfg) -> Call {
     }
     if cfg.fam == "strike" {
         return match rng.gen_range(0..12) {
-            0 => set_filter([15, 7, 8, 2, 0][rng.gen_range(0..5)]),
+            0 => set_filter([15, 15, 8, 7, 2, 0][rng.gen_range(0..6)]),
             1 => Call::HasImages,
-            _ => Call::Image { g: rng.gen_range(0..8), ppem: [8, 10, 12, 16, 20, 24, 30, 32, 100, 300][rng.gen_range(0..10)], depth: [1, 2, 4, 8, 32][rng.gen_range(0..5)] },
+            _ => Call::Image { g: rng.gen_range(0..7), ppem: [8, 10, 12, 16, 20, 24, 30, 32, 100, 300][rng.gen_range(0..10)], depth: [1, 1, 2, 4, 8, 32, 32][rng.gen_range(0..7)] },
         };
     }
     if cfg.fam == "pairs" {
@@ -2368,9 +2368,12 @@ fn record(seed: u64, histories: usize, len: usize, fill: usize, out: &str) {
     // strike: random strikes (3 to 6; sizes, bit depths and glyph ranges drawn from the seed), as EBLC and as CBLC
     let mut strike: Vec<Rc<FontCfg>> = Vec::new();
     for kind in [imgenc::EBDT, imgenc::CBDT] {
-        let strikes: Vec<Value> = (0..rng.gen_range(3..7)).map(|_| {
+        // the bit depths in a random order, one after the other: neighbouring strikes never have the same depth
+        let mut depths = [1, 2, 4, 8, 32];
+        depths.shuffle(&mut rng);
+        let strikes: Vec<Value> = (0..rng.gen_range(3..7usize)).map(|k| {
             let first = rng.gen_range(1..6u16);
-            let (ppem, depth, last) = ([8, 12, 16, 24, 32][rng.gen_range(0..5)], [1, 2, 4, 8, 32][rng.gen_range(0..5)], rng.gen_range(first..7u16));
+            let (ppem, depth, last) = ([8, 12, 16, 24, 32][rng.gen_range(0..5)], depths[k % 5], rng.gen_range(first..7u16));
             json!({"ppem": ppem, "depth": depth, "first": first, "last": last})
         }).collect();
         strike.extend(uni.of(&json!({"fam": "strike", "damaged": [], "lookups": [], "imgs": kind, "sub": "", "strikes": strikes}), &modes));
